@@ -82,9 +82,39 @@ def gen_case(rng):
     return ops
 
 
+def lap_case(rng):
+    """writes exactly one (or two) laps of the ring after an earlier write into the same slot, on and next to a bucket boundary:
+    the slot still holds the bucket of one lap ago and must be recycled (seed C04-f; same boundary as seeds C01-a, C02-a)"""
+    ops = ["clock"]
+    off = rng.choice([0, 0, 500, 1500, 3000, 250])
+    if off:
+        ops.append("adv ms=%d" % off)
+    res = ["r0", "r1"]
+    eid = 0
+    open_ = []
+    for step in range(rng.randint(2, 5)):
+        for _ in range(rng.randint(1, 3)):
+            eid += 1
+            r = rng.choice(["r0", "r0", "r0", "r1"])
+            ops.append("build e=%d res=%s batch=%d dir=%s" % (eid, r, rng.choice([1, 2, 3]), rng.choice(["in", "out"])))
+            open_.append(eid)
+            ops.append("node res=%s" % r)
+            ops.append("node res=__inbound__")
+            if rng.random() < 0.5:
+                ops.append("exit e=%d" % open_.pop(rng.randrange(len(open_))))
+                ops.append("node res=%s" % r)
+        ops.append("adv ms=%d" % rng.choice([10000, 10000, 10000, 10000, 10000, 20000, 9500, 10500, 9999, 5000]))
+    for e in open_:
+        ops.append("exit e=%d" % e)
+    for r in res:
+        ops.append("node res=%s" % r)
+    ops.append("node res=__inbound__")
+    return ops
+
+
 def gen_own(rng, tier):
     n = 400 if tier == "quick" else 20000
-    return [gen_case(rng) for _ in range(n)]
+    return [gen_case(rng) if i % 12 != 5 else lap_case(rng) for i in range(n)]
 
 
 def gen(rng, tier):
